@@ -192,6 +192,47 @@ theorem specMeans_builtin (env : Env) (c v : Bool) (l : List Str) (n : Str)
   rw [List.append_assoc, cxxSpec_cv, cxxSpec_specifiers env _ l _ hl rfl, cxxSpec_stop env _ rest hstop]
   exact ⟨_, rfl, by simp [SpecAcc.base, hf]⟩
 
+/-! ### the rendering entry points with keyword arguments (`genArgK`, tied through the driver op `kw`) -/
+
+/-- without keyword arguments the `const` of the base type is printed as recorded -/
+theorem argConst_default (c i : Bool) : argConst {} c i = c := by
+  cases c <;> cases i <;> rfl
+
+/-- `asgn_value=True` never touches the `const` behind a pointer or a reference
+    (`const T &x`, `const T *x` keep denoting the declared type) -/
+theorem asgn_value_keeps_const_behind_indirection (o : GenOpts) (c : Bool) :
+    argConst { o with asgnValue := true } c true = argConst { o with asgnValue := false } c true := by
+  cases c <;> simp [argConst]
+
+/-- `asgn_value=True` makes a by-value declaration assignable -/
+theorem asgn_value_drops_const_of_values (o : GenOpts) (c : Bool) :
+    argConst { o with asgnValue := true } c false = false := by
+  cases c <;> cases h : o.removeConst <;> simp [argConst, h]
+
+/-- at the rendering level: for a declaration with indirection, `gen_arg_as_cxx(asgn_value=True)`
+    and `gen_arg_as_c(asgn_value=True)` are the plain renderings -/
+theorem genArgK_asgn_value_indirect (env : Env) (asC : Bool) (s : Spec) (d0 : Declarator) (params : Option (List Decl))
+    (fc : Bool) (arr : List Expr) (attrs : List (Str × AttrVal)) (init : Option Init) (h : d0.pointers.isEmpty = false) :
+    genArgK env asC { asgnValue := true } (.mk s (some d0) params fc arr attrs init)
+      = genArgK env asC {} (.mk s (some d0) params fc arr attrs init) := by
+  have e : ∀ c, argConst { asgnValue := true } c true = argConst {} c true := by intro c; cases c <;> rfl
+  have hp : Ptr.genK asC { asgnValue := true } = Ptr.genK asC {} := by funext p; simp [Ptr.genK]
+  have hg : ∀ d : Declarator, d.genK asC { asgnValue := true } = d.genK asC {} := by
+    intro d
+    induction d with
+    | leaf ps n => simp [Declarator.genK, hp]
+    | wrap ps i ih => simp [Declarator.genK, hp, ih]
+  have hi : argIndirect (some d0) = true := by simp [argIndirect, h]
+  simp [genArgK, argTypeK, argDeclaratorK, hi, e, hg]
+
+open Shroud.Gen.DeclTables in
+/-- left associativity of equal-precedence operators: `n - m - k` is `(n - m) - k`, `a / b * c` is `(a / b) * c` -/
+example : expression 20 0 [tk .ID "n", tk .MINUS "-", tk .ID "m", tk .MINUS "-", tk .ID "k"]
+    = .ok (.binary (.binary (.ident (sp "n")) (sp "-") (.ident (sp "m"))) (sp "-") (.ident (sp "k")), []) := by rfl
+
+example : expression 20 0 [tk .ID "a", tk .SLASH "/", tk .ID "b", tk .STAR "*", tk .ID "c"]
+    = .ok (.binary (.binary (.ident (sp "a")) (sp "/") (.ident (sp "b"))) (sp "*") (.ident (sp "c")), []) := by rfl
+
 /-! ### non-vacuity: concrete well-formed declarations in the environment extracted from Shroud -/
 
 open Shroud.Gen.DeclTables in
@@ -286,14 +327,20 @@ example : parse defaultEnv [tk .ID "size_t", tk .TYPE_SPECIFIER "int", tk .ID "x
     = .reject "type specifier 'int' cannot be combined with the type name 'size_t'" := by rfl
 
 open Shroud.Gen.DeclTables Shroud.Cxx in
-/-- `int ( )` (finding `meaning:abstract-function-parens`): a function type in C++, plain `int` for Shroud -/
+/-- `int ( )` and `int * ( int )` (former findings `meaning:abstract-function-parens`,
+    `roundtrip:empty-declarator`, `roundtrip:abstract-function`, fixed by 02af1f3): function types for
+    C++ and, now, for Shroud -/
 example :
     cxxMeaning defaultEnv [tk .TYPE_SPECIFIER "int", tk .LPAREN "(", tk .RPAREN ")"]
       = some (none, .func (.base false false (.fund (sp "int"))) [] false)
     ∧ (match parse defaultEnv [tk .TYPE_SPECIFIER "int", tk .LPAREN "(", tk .RPAREN ")"] with
-       | .ok d => denote defaultEnv d = some (.base false false (.fund (sp "int")))
+       | .ok d => denote defaultEnv d = some (.func (.base false false (.fund (sp "int"))) [] false)
+       | _ => False)
+    ∧ (match parse defaultEnv [tk .TYPE_SPECIFIER "int", tk .STAR "*", tk .LPAREN "(", tk .TYPE_SPECIFIER "int", tk .RPAREN ")"] with
+       | .ok d => denote defaultEnv d
+            = (cxxMeaning defaultEnv [tk .TYPE_SPECIFIER "int", tk .STAR "*", tk .LPAREN "(", tk .TYPE_SPECIFIER "int", tk .RPAREN ")"]).map (·.2)
        | _ => False) := by
-  constructor <;> rfl
+  refine ⟨rfl, ?_, ?_⟩ <;> rfl
 
 open Shroud.Cxx in
 example : RP exVar := by
